@@ -7,3 +7,7 @@ prop('C01','exploration','byte-compare oracle over generated extract scenarios +
  'Runs AssembleFile (and `desync extract`) on PRNG-generated blobs, seed sets (stale, empty, duplicate, self-aliasing ...), prior target contents, invalid-seed actions, worker counts, with and without an in-process FICLONERANGE emulation following the kernel checks, under schedule perturbation with -race; success must mean output == blob, and success is demanded where the statement demands it; panics and deadlocks are child crashes attributed to the case.',
  'Block cloning is emulated (no reflink filesystem here): kernel behaviour is modelled from generic_remap_* not observed. Hangs are decided from goroutine dumps (all goroutines blocked on sync primitives), the wall-clock watchdog alone is inconclusive.',
  'DESIGN.md 5/C01')
+prop('C12','exploration','offline history checker (interval rule over caller/upstream events) + in-flight counter + deadlock classification + Go race detector, gate-controlled upstream and parks at hook points',
+ 'Drives DedupQueue and WriteDedupQueue with 2-8 concurrent callers over 1-3 IDs against an in-memory upstream whose calls are delayed/held and return unique objects, parks goroutines at the dedup hook points, records call/return events with one logical clock and checks every result against the upstream log: justified by an upstream request whose leader had not returned, at most one upstream request per (kind,ID) in flight, reads never bypass an in-flight write, all callers return.',
+ 'Interleavings are sampled by delays and parks, not enumerated. The property is read as: a result may be shared until the leader that produced it has returned (the stricter reading is unsatisfiable, see DESIGN.md).',
+ 'DESIGN.md 5/C12')
